@@ -78,6 +78,71 @@ theorem parse_unionOf {g : GCtx} (hg : GOK g) {d : Defs} {needs : List String} (
           · rw [postTy_union_sugar hg]
             simp [postTys]
 
+/-- the join of the literal group -/
+def litJoin (lits : List Ty) : Ty := match lits with | [t] => t | _ => .union lits
+
+/-- what parsing `unionOf l` and post-processing yields, in terms of the member list -/
+theorem union_of_parts {non lits : List Ty} (hnu : ∀ a ∈ non, isUnionTy a = false) (hl : allLits lits)
+    (hd : pyDistinct (non ++ lits) = true) (hne : non ++ lits ≠ []) :
+    (match non ++ (if lits = [] then [] else [litJoin lits]) with
+      | [y] => y
+      | L' => mkUnion L') =
+    (match non ++ lits with | [x] => x | r => .union r) := by
+  have hdl : pyDistinct lits = true := pyDistinct_append_right hd
+  have hallu : ∀ a ∈ non ++ lits, isUnionTy a = false := by
+    intro a ha
+    rcases List.mem_append.1 ha with h | h
+    · exact hnu a h
+    · exact allLits_no_union hl a h
+  by_cases hlits : lits = []
+  · subst hlits
+    simp only [if_true, List.append_nil] at hne ⊢
+    cases non with
+    | nil => exact absurd rfl hne
+    | cons y ys =>
+      cases ys with
+      | nil => rfl
+      | cons z zs =>
+        simp only
+        exact mkUnion_distinct (by simpa using hallu) (by simpa using hd)
+  · rw [if_neg hlits]
+    have hfl : flattenUnionMembers [litJoin lits] = lits := flatten_joinLits hl hlits
+    cases non with
+    | nil =>
+      simp only [List.nil_append]
+      cases lits with
+      | nil => exact absurd rfl hlits
+      | cons a as => cases as <;> rfl
+    | cons y ys =>
+      have hL : ∀ x, (y :: ys) ++ [litJoin lits] ≠ [x] := by
+        intro x; cases ys <;> simp
+      have hR : ∀ x, (y :: ys) ++ lits ≠ [x] := by
+        intro x
+        cases lits with
+        | nil => exact absurd rfl hlits
+        | cons a as => cases ys <;> simp
+      have e1 : (match (y :: ys) ++ [litJoin lits] with | [y] => y | L' => mkUnion L') =
+          mkUnion ((y :: ys) ++ [litJoin lits]) := by
+        split
+        · next x hx => exact absurd hx (hL x)
+        · rfl
+      have e2 : (match (y :: ys) ++ lits with | [x] => x | r => Ty.union r) = .union ((y :: ys) ++ lits) := by
+        split
+        · next x hx => exact absurd hx (hR x)
+        · rfl
+      rw [e1, e2]
+      unfold mkUnion
+      rw [flatten_append, hfl, flatten_no_union hnu, dedupPy_of_distinct hd]
+
+theorem flatten_single_or_union {r : List Ty} (hu : ∀ a ∈ r, isUnionTy a = false) (hne : r ≠ []) :
+    flattenUnionMembers [match r with | [x] => x | r => Ty.union r] = r := by
+  cases r with
+  | nil => exact absurd rfl hne
+  | cons a as =>
+    cases as with
+    | nil => exact flatten_no_union (l := [a]) hu
+    | cons b bs => simp [flattenUnionMembers]
+
 theorem good_union_parse {g : GCtx} (hg : GOK g) {ip : Bool} {ts : List Ty} (ih : ListGood g ip ts)
     (hf : fTys g ip ts = true) (hu : ts.any isUnionTy = false)
     (hd : pyDistinct (unionRes ip (normTys g.tps ip ts)) = true)
